@@ -475,3 +475,13 @@ def check_changes_reach_detached_files(ctx, consequence: str):
         missing = sorted(s.name for d, s in need - tab)
         ctx.check(not missing, site, f"{name} covers detached nodes with recorded content", f"detached nodes in state {missing} are not examined: {consequence}", "BUILT/OUTDATED/CONFIRMED/MISSING, detached included")
 
+
+def check_detach_repends_attached_consumers(ctx, consequence: str):
+    """When a step (with its outputs) is detached, the attached steps that consume one of those outputs no longer
+    have a producer for it: in a build from scratch they would be pending.  Step.detach (or what it calls) has to
+    send them through mark_step_pending."""
+    sd = ctx.prog.func("step.Step.detach")
+    reach = ctx.cg.reachable(sd.fq, include_by_name=False)
+    ok = "workflow.Workflow.mark_step_pending" in reach or "workflow.Workflow.mark_consuming_steps_pending" in reach
+    ctx.check(ok, sd.fq, "detaching a step re-pends the attached consumers of its outputs", consequence, "mark_step_pending reachable from Step.detach", where=ctx.where_of(sd))
+
